@@ -306,14 +306,21 @@ _BOPS = [("laplace", "V"), ("laplace", "K"), ("laplace", "Kp"), ("laplace", "W")
          ("helmholtz", "W"), ("modified", "V"), ("modified", "K"), ("modified", "W"), ("maxwell", "E"), ("maxwell", "M")]
 
 
-def shards(tier):
-    n = 1 if tier == "quick" else 8
+def shards(tier, seed=1):
+    from vlib.pbt import rot
+
+    q = tier == "quick"
+    n = 1 if q else 8
     out = [{"check": "stub", "examples": 40, "budget_s": 60}]
-    for fam, op in _BOPS:
-        out.append({"check": "boundary", "fam": fam, "op": op, "examples": (6 if fam != "maxwell" else 4) * n, "budget_s": 170 * n})
-    for fam, op in (("laplace", "V"), ("laplace", "K"), ("helmholtz", "V"), ("helmholtz", "K"), ("modified", "V"), ("maxwell", "E"), ("maxwell", "M")):
-        out.append({"check": "potential", "fam": fam, "op": op, "examples": 6 * n, "budget_s": 150 * n})
-    if tier == "thorough":
+    bops = rot(_BOPS, seed, 3) if q else _BOPS
+    if q and not any(b[0] == "maxwell" for b in bops):
+        bops = bops[:2] + [("maxwell", "E" if seed % 2 else "M")]
+    for fam, op in bops:
+        out.append({"check": "boundary", "fam": fam, "op": op, "examples": (8 if fam != "maxwell" else 5) * n, "budget_s": 300 * n})
+    pots = [("laplace", "V"), ("helmholtz", "K"), ("maxwell", "E"), ("laplace", "K"), ("helmholtz", "V"), ("modified", "V"), ("maxwell", "M")]
+    for fam, op in (rot(pots, seed, 2) if q else pots):
+        out.append({"check": "potential", "fam": fam, "op": op, "examples": 8 * n, "budget_s": 240 * n})
+    if not q:
         for what in ("laplace", "helmholtz", "modified", "maxwell", "two_grids"):
             out.append({"check": "reference", "what": what, "budget_s": 3000, "threads": 2})
     return out
@@ -392,5 +399,7 @@ def strategy(spec):
 
 
 def required_labels(tier):
-    return ["boundary", "potential", "stub", "same_grid", "two_grids", "non_prefix_support", "barycentric", "complex_k", "dense_evaluation",
-            "laplace_W", "helmholtz_K", "maxwell_E", "maxwell_M"]
+    base = ["boundary", "potential", "stub", "same_grid", "non_prefix_support"]
+    return base if tier == "quick" else base + ["two_grids", "barycentric", "complex_k", "dense_evaluation", "laplace_W", "helmholtz_K", "maxwell_E", "maxwell_M"]
+
+
